@@ -12,13 +12,15 @@ CONFIGS_THOROUGH = ["A", "R"]
 TECHNIQUE = ('literal directive tables of SetCookieBuilder::build vs SetCookie::from_raw (arm -> field map from stores), taint of the cookie value, pairing of the '
              'Set-Cookie store with its size; value-set dataflow (powerset of 0..255) over the byte classifiers vs the RFC 6265 alphabets')
 LEVEL_TEXT = ('Decides clauses C11-a..d: the directive literals SetCookieBuilder::build emits (`; Expires=` .. `; SameSite=`) are, stripped of `; ` and `=`, exactly '
-              'the token array SetCookie::from_raw dispatches on, arm k of the parser assigns the field named by token k, and each emitted directive is guarded by '
-              "the field of the same name; SameSitePolicy::as_str and from_bytes are mutually inverse and within RFC 6265bis' vocabulary; the cookie value reaches "
-              'the output only through percent_encode and is read back through checked percent_decode_utf8 after quote stripping (on the request side: every value the value reader of the Cookie decoder answers is the percent-decoding of a sub-slice of the very bytes it validated, with no byte-rewriting step in between); the final from_utf8_unchecked in '
-              'build is fed only by bytes of &str values; SetHeaders::SetCookie pushes one element per call and accounts `Set-Cookie: ` + value + CRLF, which is what'
-              " the writer emits per element; the per-byte validators of the Cookie decoder let through exactly RFC 6265's cookie-octet alphabet (values) and token "
-              'alphabet (names), computed as the value sets reaching the accepting and refusing edges of the match. Decides these clauses, not the round trip for all'
-              ' jars.')
+              'the token array SetCookie::from_raw dispatches on, arm k of the parser assigns the field named by token k, and each emitted directive is guarded by th'
+              "e field of the same name; SameSitePolicy::as_str and from_bytes are mutually inverse and within RFC 6265bis' vocabulary; the cookie value reaches the "
+              'output only through percent_encode and is read back through checked percent_decode_utf8 after quote stripping (on the request side: every value the va'
+              'lue reader of the Cookie decoder answers is the percent-decoding of a sub-slice of the very bytes it validated, with no byte-rewriting step in between'
+              '); the final from_utf8_unchecked in build is fed only by bytes of &str values; SetHeaders::SetCookie pushes one element per call and accounts `Set-Coo'
+              "kie: ` + value + CRLF, which is what the writer emits per element; the per-byte validators of the Cookie decoder let through exactly RFC 6265's cookie"
+              '-octet alphabet (values) and token alphabet (names), computed as the value sets reaching the accepting and refusing edges of the match. The quote stri'
+              'pping of the request-side value reader runs under len >= 2 and both quote tests (or is a strip_prefix/strip_suffix pair, or a slice pattern testing bo'
+              'th ends). Decides these clauses, not the round trip for all jars.')
 
 DIRECTIVES = ["Expires", "Max-Age", "Domain", "Path", "SameSite", "Secure", "HttpOnly"]
 RFC6265_AV = {"Expires", "Max-Age", "Domain", "Path", "Secure", "HttpOnly", "SameSite"}
